@@ -229,33 +229,11 @@ func getDebianCharWeight(r rune) int {
 
 // compareDebianDigits compares digit strings numerically
 func compareDebianDigits(a, b string) int {
-	// Empty string is treated as 0
-	if a == "" && b == "" {
-		return 0
-	}
-	if a == "" {
-		return -1
-	}
-	if b == "" {
-		return 1
-	}
+	// Leading zeros are not significant; an empty run is treated as 0
+	a = strings.TrimLeft(a, "0")
+	b = strings.TrimLeft(b, "0")
 
-	// Convert to integers for comparison
-	aNum, aErr := strconv.ParseUint(a, 10, 64)
-	bNum, bErr := strconv.ParseUint(b, 10, 64)
-
-	if aErr == nil && bErr == nil {
-		if aNum < bNum {
-			return -1
-		}
-		if aNum > bNum {
-			return 1
-		}
-		return 0
-	}
-
-	// Fallback for very large numbers that don't fit in uint64.
-	// Compare by length first.
+	// Without leading zeros, the longer number is the larger one
 	if len(a) < len(b) {
 		return -1
 	}
